@@ -240,6 +240,11 @@ func fixedC01() []*Case {
 			c.Regex = sp("^a$")
 			c.Glob = sp("b")
 		}),
+		// StoreAbsolutePath with a lockfile-style extractor: three packages sharing one Locations slice
+		mk("fixed", dir(".", dir("a", file("x.lock", 1))), func(c *Case) {
+			c.StoreAbs = true
+			c.Extract = []XEntry{{Ext: "e0", Path: "a/x.lock", SharedLocs: true, Pkgs: []Pkg{{Name: "p", Version: "1", Locs: []string{"a/x.lock"}}, {Name: "q", Version: "1", Locs: []string{"a/x.lock"}}, {Name: "pp", Version: "2", Locs: []string{"a/x.lock"}}}}}
+		}),
 		// FileRequired consults api.Stat()
 		mk("fixed", dir(".", file("a", 4), file("b", 20)), func(c *Case) { c.StatReq = []StatReq{{Ext: "e0", Min: 10}} }),
 	}
@@ -270,6 +275,7 @@ func fixedC08() []*Case {
 		// an extraction error in the first of three roots: the plugin's status must still report it
 		mk("fixed", []*Node{dir(".", file("a", 1)), dir(".", file("b", 1)), dir(".", file("c", 1))}, func(c *Case) { c.Extract[0].Err = true }),
 		mk("fixed", []*Node{dir(".", file("b", 1), file("a", 1))}, func(c *Case) { c.Extract[0].Pkgs[0].Name = "p"; c.Extract[1].Pkgs[0].Name = "p" }),
+		// (kept last) detectors whose findings' publisher order disagrees with the reference order
 		mk("fixed", []*Node{dir(".")}, func(c *Case) {
 			c.Dets = []Det{{Name: "det0", Findings: []Finding{{Pub: "ZZZ", Ref: "A9", Extra: "x"}, {Pub: "AAA", Ref: "R2", Extra: ""}, {Pub: "CVE", Ref: "A9", Extra: ""}}}}
 		}),
